@@ -70,6 +70,7 @@ NPROC = 16
 COUNTS = Counter()
 _LAST = {}
 _real = {}
+_EXPANDED_FOR = {}  # id(rule) -> key of the class that was being expanded when the searcher produced the rule
 
 
 def _note(check, what):
@@ -319,6 +320,8 @@ def _pre_add(self, start, ends, rule):
     empties = tuple(truly_empty(c) for c in children)
     if any(empties):
         COUNTS["add:with-empty-child"] += 1
+    if _EXPANDED_FOR.get(id(rule), pkey) != pkey:
+        COUNTS["add:foreign-parent"] += 1
     frame.update(
         possibly_empty=bool(rule.possibly_empty), ends=tuple(ends), empties=empties,
         desc=f"{start} -> {tuple(ends)} by {strat!r}",
@@ -440,12 +443,23 @@ def installed():
         _model_see(self, key)
         return _real["get_class"](self, key)
 
+    # observer (no contract): which class was being expanded when a rule was produced
+    S = CombinatorialSpecificationSearcher
+    _real["expand"] = S._expand_class_with_strategy
+
+    def _expand_class_with_strategy(self, comb_class, strategy_generator, label=None, initial=False):
+        for triple in _real["expand"](self, comb_class, strategy_generator, label, initial):
+            _EXPANDED_FOR[id(triple[2])] = comb_class.key()
+            yield triple
+
     B.add, F.add, B._clean_labels, C.get_label, C.get_class = base_add, forest_add, _clean_labels, get_label, get_class
+    S._expand_class_with_strategy = _expand_class_with_strategy
     try:
         yield
     finally:
         B.add, F.add, B._clean_labels = _real["base_add"], _real["forest_add"], _real["clean"]
         C.get_label, C.get_class = _real["get_label"], _real["get_class"]
+        S._expand_class_with_strategy = _real["expand"]
 
 
 # --------------------------------------------------------------------------------------------------------------
@@ -462,6 +476,7 @@ def run_case(case):
     start = class_from_repr(start_repr)
     witness = {"pack": pack_name, "start": start_repr, "ruledb": db_name, "expand_verified": expand_verified}
     _LAST.clear()
+    _EXPANDED_FOR.clear()
     before = Counter(COUNTS)
     css = None
 
@@ -491,7 +506,7 @@ def run_case(case):
     delta.subtract(before)
     interesting = sum(delta[k] for k in (
         "add:from-factory", "add:symmetry", "add:inferral", "add:verification-non-atom", "add:with-empty-child",
-        "add:empty-rule"))
+        "add:empty-rule", "add:foreign-parent"))
     with_children = delta["add"] - delta["add:verification-atom"] - delta["add:verification-non-atom"]
     info = {"adds": delta["add"], "nontrivial": bool(with_children > 0 and interesting > 0),
             "classes": len(css.classdb.label_to_info)}
@@ -512,8 +527,19 @@ def _worker(cases):
     return viols, infos, dict(COUNTS)
 
 
+# a few more start classes exercising inferral chains (redundant patterns AND vanishing / duplicate statistics) and
+# classes that are their own mirror image (the symmetry rule is a self-equivalence and must be filtered)
+EXTRA_STARTS = [
+    ("", ["b", "bb"], "ab", ("nb", "na")),
+    ("", ["aa", "aab"], "ab", ("nb", "na")),
+    ("", ["a", "aa", "aaa"], "ab", ("na", "na2")),
+    ("", ["ab", "ba"], "ab", ()),
+    ("a", ["b", "bab"], "ab", ("nb",)),
+]
+
+
 def _cases(tier, seed):
-    starts = START_CLASSES(tier, seed)
+    starts = START_CLASSES(tier, seed) + [Av(p, pt, al, False, st) for p, pt, al, st in EXTRA_STARTS]
     cases = []
     for pack_name in PACKS:
         pack = PACKS[pack_name]()
@@ -560,7 +586,7 @@ def run(tier, seed):
         "rule": ("one evaluation = one search (pack, start class, rule database, expand_verified), enumerated without "
                  "repetition; non-trivial when at least one rule with children was inserted AND at least one inserted "
                  "rule came from a factory, a symmetry, an inferral strategy, a non-atom verification strategy, or had "
-                 "a truly empty child"),
+                 "a truly empty child or a parent other than the class being expanded"),
         "exhaustive": False,
         "contracts_evaluated": dict(counts),
         "samples": samples,
